@@ -31,6 +31,7 @@
 -/
 import PyTealV.Proofs.C02GenProg
 import PyTealV.Proofs.C02GenSpill
+import PyTealV.Proofs.C02GenPres
 namespace PyTealV.Proofs.C02Gen
 open PyTealV PyTealV.Avm PyTealV.Src PyTealV.Comp PyTealV.Models.Fragment PyTealV.Models.FragmentR
 open PyTealV.Check (isSimple)
@@ -40,94 +41,98 @@ open PyTealV.Proofs.Shape (ovf Blk isUnm retOut)
 
 theorem frame_nospill {cx : Ctx} {X : MCtx} {cfg : RCfg} {f : Nat} {ce : Callee} {cb k nret : Nat}
     {locals : List Var} {st σ : List Val} {ic bcs} {w1 : World}
-    (hns : (cfg.reenters.contains f && !cfg.localSlots.isEmpty) = false) (hloc : locals = [])
+    (hns : (cfg.reenters.contains f && !cfg.localSlots.isEmpty) = false) (hloc : ∀ x ∈ locals, x ∈ X.ign)
     (hb : Blk X.G cb (callOps cfg f ce) (.next k)) :
     CallFrame cx X cb k f nret locals st σ ic bcs w1 := by
-  subst hloc
   have hops : callOps cfg f ce = [.callsub (subLabel f)] := by
     unfold callOps
     rw [hns]
     rfl
   rw [hops] at hb
   refine ⟨_, 0, σ, hb, rfl, ReachS.refl _, fun rets w3 _ => ?_⟩
-  intro wm hw _
-  refine .inr ⟨wm, hw, .step ?_⟩
-  unfold Blk at hb
-  simp [gstepP, MCtx.st, GSt.setW, X.hG, hb]
+  intro wm hw _ _
+  refine .inr ⟨wm, ⟨fun x hx => ?_, hw.2⟩, trivial, .step ?_⟩
+  · show getSlot (restoreW locals w1 w3).scratch x = _
+    rw [restoreW_get, if_neg (fun h => hx (hloc x h))]
+    exact hw.1 x hx
+  · unfold Blk at hb
+    simp [gstepP, MCtx.st, GSt.setW, X.hG, hb]
 
-theorem frameProvider_noReentry {P : PCtx} (hnr : noReentry P.p = true) : FrameProvider P := by
-  intro X cfg K cur hR f ce cb k st σ ic bcs w1 hf hb hlen
-  simp only [noReentry, List.all_eq_true, List.isEmpty_iff] at hnr
-  cases hR with
-  | main _ _ => exact frame_nospill (by simp [mainCfg]) rfl hb
-  | @sub f0 sd fr cs' _ hsd _ _ _ =>
-    have hre : sd.reenters = [] := hnr sd (List.mem_of_find?_eq_some hsd)
-    refine frame_nospill (by simp [subCfg, hre]) ?_ hb
-    simp only [srcLocals, hsd, hre]
-    rfl
+/-- the call blocks of a subroutine `sd` -/
+theorem frame_of_sub {P : PCtx} {X : MCtx} {f0 : Nat} {sd : SubDef} (hS : SubOK P f0 sd) (hsd : findSub P.p f0 = some sd)
+    (hign : X.ign = P.ign) {f : Nat} {ce : Callee} {cb k : Nat} {st σ : List Val} {ic bcs} {w1 : World}
+    (hb : Blk X.G cb (callOps (subCfg P sd) f ce) (.next k)) (hlen : st.length = ce.nArgs) :
+    CallFrame P.cx X cb k f (if ce.hasRet then 1 else 0) (srcLocals P.p (some f0) f) st σ ic bcs w1 := by
+  by_cases hre : sd.reenters.contains f = true
+  · by_cases hemp : (spillSlotsC P.fp sd).isEmpty = true
+    · -- no local slot outside the ignored ones: nothing observable is saved on either side
+      refine frame_nospill (by simp only [subCfg, hre, hemp]; rfl) ?_ hb
+      intro x hx
+      simp only [srcLocals, hsd, hre, if_true] at hx
+      rw [hign]
+      rcases Classical.em (x ∈ P.ign) with h | h
+      · exact h
+      · have := (hS.sset x h).mp hx
+        rw [List.isEmpty_iff.mp hemp] at this
+        cases this
+    · have hemp' : (spillSlotsC P.fp sd).isEmpty = false := by simpa using hemp
+      refine frame_spill (cfg := subCfg P sd) (by simp only [subCfg, hre, hemp']; rfl) hS.snodup hS.s256
+        (fun s hs => hign ▸ hS.snign s hs) ?_ hlen hb
+      intro x hx
+      simp only [srcLocals, hsd, hre, if_true]
+      exact hS.sset x (hign ▸ hx)
+  · have hre' : sd.reenters.contains f = false := by simpa using hre
+    refine frame_nospill (by simp only [subCfg, hre']; rfl) ?_ hb
+    intro x hx
+    simp only [srcLocals, hsd, hre'] at hx
+    cases hx
 
 /-- every call block of a program with `ProgOK` does its job: nothing to do when the callee cannot
     re-enter the caller (or the caller has no local slot), otherwise the spill / restore code of
     `Models.Spill` (`frame_spill`, from `C02Spill.restore_ok`, `before_ok`, `before_ovf`) -/
 theorem frameProvider_of_progOK {P : PCtx} (hP : ProgOK P) : FrameProvider P := by
   intro X cfg K cur hR f ce cb k st σ ic bcs w1 hf hb hlen
+  have hpresent := fun (h : ∃ f0, cur = some f0) => h
   cases hR with
-  | main _ _ => exact frame_nospill (by simp [mainCfg]) rfl hb
-  | @sub f0 sd fr cs' hpg hsd hr0 _ _ =>
-    have hpres : Present P f0 := by
-      have := X.hG
-      rw [hr0, hpg] at this
-      simp only [PProg.graphOf, Option.map_eq_some_iff] at this
-      obtain ⟨a, ha, _⟩ := this
-      simp only [Present, ha, Option.isSome_some]
-    have hS := hP f0 sd hsd hpres
-    by_cases hre : sd.reenters.contains f = true
-    · by_cases hemp : (spillSlots sd).isEmpty = true
-      · -- no local slot: nothing is saved on either side
-        have hloc : sd.locals = [] := by
-          have hs : spillSlots sd = [] := List.isEmpty_iff.mp hemp
-          cases hl : sd.locals with
-          | nil => rfl
-          | cons x xs =>
-            have := (hS.sset x).mp (by rw [hl]; exact List.mem_cons_self ..)
-            rw [hs] at this
-            cases this
-        refine frame_nospill (by simp only [subCfg, hre, hemp]; rfl) ?_ hb
-        simp only [srcLocals, hsd, hre, if_true, hloc]
-      · have hemp' : (spillSlots sd).isEmpty = false := by simpa using hemp
-        refine frame_spill (cfg := subCfg P sd) (by simp only [subCfg, hre, hemp']; rfl) hS.snodup hS.s256 ?_ hlen hb
-        intro x
-        simp only [srcLocals, hsd, hre, if_true]
-        exact hS.sset x
-    · have hre' : sd.reenters.contains f = false := by simpa using hre
-      refine frame_nospill (by simp only [subCfg, hre']; rfl) ?_ hb
-      simp only [srcLocals, hsd, hre']
-      rfl
+  | main _ _ _ _ _ _ => exact frame_nospill (by simp [mainCfg]) (fun x hx => by cases hx) hb
+  | @sub f0 sd fr cs' hpg hfp hsd hr0 hcs hpr hign hinv hdev =>
+    exact frame_of_sub (hP f0 sd hsd (RoutOK.present (.sub hpg hfp hsd hr0 hcs hpr hign hinv hdev))) hsd hign hb hlen
+  | @subFp f0 sd fr cs' st0 σc hpg hfp hsd hr0 hcs hpr hbase hl0 hh hign hinv hdev =>
+    exact frame_of_sub (hP f0 sd hsd (RoutOK.present (.subFp hpg hfp hsd hr0 hcs hpr hbase hl0 hh hign hinv hdev)))
+      hsd hign hb hlen
+
+/-- scratch-slot convention: activations carry no invariant on the source world -/
+theorem callInv_scratch {P : PCtx} (hfp : P.fp = false) : CallInv P := by
+  intro X cfg K cur hR f sd st w1 fuel r3 w3 _ _ _ _ _
+  cases hR with
+  | main _ _ _ hinv => rw [hinv]; trivial
+  | sub _ _ _ _ _ _ _ hinv => rw [hinv]; trivial
+  | subFp _ hfp' => rw [hfp] at hfp'; cases hfp'
 
 /-! ### the whole program -/
 
 section Final
-variable (cx : Ctx) (Pg : PProg) (w0 : World)
+variable (D : Fail → Prop) (I : List Nat) (cx : Ctx) (Pg : PProg) (w0 : World)
 
-/-- the run of the whole program ends with outcome `o` (up to the scratch representation), unless
-    the operand stack overflows -/
+/-- the run of the whole program ends with outcome `o` (up to `SameW I`), unless it fails with one
+    of the permitted deviations `D` -/
 def OutP (o : Outcome) : Prop :=
-  ∃ n, (∃ o', OutEq o o' ∧ runP cx Pg n { world := w0 } = o') ∨
-    runP cx Pg n { world := w0 } = .fail (.logic "stack overflow")
+  ∃ n, (∃ o', OutEq I o o' ∧ runP cx Pg n { world := w0 } = o') ∨
+    ∃ f, D f ∧ runP cx Pg n { world := w0 } = .fail f
 
 def FailsP : Prop := ∃ n f, runP cx Pg n { world := w0 } = .fail f
 
 def OutVP (v : Val) (w' : World) : Prop :=
   match v with
-  | .u _ => OutP cx Pg w0 (.done v w')
+  | .u _ => OutP D I cx Pg w0 (.done v w')
   | .b _ => FailsP cx Pg w0
 
 /-- what the program graph does for each result of the source evaluation of the main tree -/
 def FinalP : Res → World → Prop
-  | .vals [v], w' => OutVP cx Pg w0 v w'
+  | .vals [v], w' => OutVP D I cx Pg w0 v w'
   | .vals _, _ => FailsP cx Pg w0
-  | .ret (some v), w' => OutVP cx Pg w0 v w'
-  | .exit v, w' => OutVP cx Pg w0 v w'
+  | .ret (some v), w' => OutVP D I cx Pg w0 v w'
+  | .exit v, w' => OutVP D I cx Pg w0 v w'
   | .ret none, _ => False
   | .brk, _ => False
   | .cont, _ => False
@@ -136,19 +141,18 @@ def FinalP : Res → World → Prop
 end Final
 
 section
-variable {cx : Ctx} {Pg : PProg} {w0 : World}
+variable {P : PCtx} {w0 : World}
 
 /-- the main routine with the empty call stack -/
-def X0 (Pg : PProg) : MCtx := ⟨Pg, none, [], Pg.main, rfl⟩
+def X0 (P : PCtx) : MCtx :=
+  { Pg := P.Pg, r := none, cs := [], G := P.Pg.main, hG := rfl, ign := P.ign, dev := P.dev, devOvf := P.dev_ovf }
 
-theorem init_eq (m : MS) : (X0 Pg).st ⟨Pg.start, 0⟩ m = Pg.init m := rfl
-
-theorem outVP_of_haltO {s : Nat} {v : Val} {w' : World} (hs : s = Pg.start)
-    (h : HaltO cx (X0 Pg) ⟨s, 0⟩ ⟨[], [], [], w0⟩ (retOut v w')) : OutVP cx Pg w0 v w' := by
+theorem outVP_of_haltO {s : Nat} {v : Val} {w' : World} (hs : s = P.Pg.start)
+    (h : HaltO P.cx (X0 P) ⟨s, 0⟩ ⟨[], [], [], w0⟩ (retOut v w')) : OutVP P.dev P.ign P.cx P.Pg w0 v w' := by
   subst hs
-  rcases h w0 (SameW.refl _) (Nat.zero_le _) with ⟨n, hn⟩ | ⟨o', ho, n, hn⟩
+  rcases h w0 (SameW.refl _ _) trivial (Nat.zero_le _) with ⟨f, hd, n, hn⟩ | ⟨o', ho, n, hn⟩
   · cases v with
-    | u x => exact ⟨n, .inr hn⟩
+    | u x => exact ⟨n, .inr ⟨f, hd, hn⟩⟩
     | b x => exact ⟨n, _, hn⟩
   · cases v with
     | u x => exact ⟨n, .inl ⟨o', ho, hn⟩⟩
@@ -159,32 +163,31 @@ theorem outVP_of_haltO {s : Nat} {v : Val} {w' : World} (hs : s = Pg.start)
       | done _ _ => exact ho.elim
       | outOfFuel => exact ho.elim
 
-theorem failsP_of_fails {s : Nat} (hs : s = Pg.start)
-    (h : Fails cx (X0 Pg) ⟨s, 0⟩ ⟨[], [], [], w0⟩) : FailsP cx Pg w0 := by
+theorem failsP_of_fails {s : Nat} (hs : s = P.Pg.start)
+    (h : Fails P.cx (X0 P) ⟨s, 0⟩ ⟨[], [], [], w0⟩) : FailsP P.cx P.Pg w0 := by
   subst hs
-  obtain ⟨f, n, hn⟩ := h w0 (SameW.refl _) (Nat.zero_le _)
+  obtain ⟨f, n, hn⟩ := h w0 (SameW.refl _ _) trivial (Nat.zero_le _)
   exact ⟨n, f, hn⟩
 
 end
 
 /-- the program graph matches every result of the source evaluation of the main tree -/
-theorem main_graph_of {version : Nat} {p : Prog} {Pg : PProg} (cx : Ctx)
-    (hP : ProgOK ⟨cx, p, Pg, version⟩) (hC : CallPresent ⟨cx, p, Pg, version⟩)
-    (hmain : Pg.main[0]? = some ({} : Block) ∧
-      ShapeR Pg.main { version := version, inSub := false, callees := calleesOf p, markIndex := false }
-        (if hasReturn p.main then p.main else .ret (some p.main)) Pg.start 0 none)
-    (hwm : mainOk p = true)
+theorem main_graph_of (P : PCtx) (hP : ProgOK P) (hC : CallPresent P) (hI : CallInv P)
+    (hmain : P.Pg.main[0]? = some ({} : Block) ∧
+      ShapeR P.Pg.main { version := P.version, inSub := false, callees := calleesOf P.p, markIndex := false }
+        (if hasReturn P.p.main then P.p.main else .ret (some P.p.main)) P.Pg.start 0 none)
+    (hwm : mainOkC P.fp P.p P.dyn = true)
     (w0 : World) (fuel : Nat) {r : Res} {w' : World}
-    (hev : eval ⟨cx, p, none⟩ fuel p.main w0 = (r, w')) : FinalP cx Pg w0 r w' := by
+    (hev : eval ⟨P.cx, P.p, none⟩ fuel P.p.main w0 = (r, w')) : FinalP P.dev P.ign P.cx P.Pg w0 r w' := by
   have hF := frameProvider_of_progOK hP
-  have hR0 : RoutOK ⟨cx, p, Pg, version⟩ (X0 Pg) (mainCfg ⟨cx, p, Pg, version⟩) (PCtx.K ⟨cx, p, Pg, version⟩ true) none :=
-    .main rfl rfl
-  have all := sound_all hP hC hF fuel (X0 Pg) _ _ _ hR0
+  have hR0 : RoutOK P (X0 P) (mainCfg P) (mainK P.fp P.p P.dyn) none := .main rfl rfl rfl rfl rfl rfl
+  have all := sound_all hP hC hF hI fuel (X0 P) _ _ _ hR0
   obtain ⟨hexit, hshape⟩ := hmain
-  simp only [mainOk, Bool.or_eq_true] at hwm
-  by_cases hret : hasReturn p.main = true
+  simp only [mainOkC, Bool.or_eq_true] at hwm
+  have hrvm : (mainK P.fp P.p P.dyn).rv = true := rfl
+  by_cases hret : hasReturn P.p.main = true
   · simp only [hret, if_true] at hshape
-    have key : ∀ n, wtR (PCtx.K ⟨cx, p, Pg, version⟩ true) false true n p.main = true → FinalP cx Pg w0 r w' := by
+    have key : ∀ n, wtR (mainK P.fp P.p P.dyn) false true n P.p.main = true → FinalP P.dev P.ign P.cx P.Pg w0 r w' := by
       intro n hw
       have g1 := all.ev _ _ _ _ _ _ _ [] [] [] _ _ _ hshape hw hev
       cases r with
@@ -194,7 +197,7 @@ theorem main_graph_of {version : Nat} {p : Prog} {Pg : PProg} (cx : Ctx)
       | ret v =>
         obtain ⟨_, hv, hg1⟩ := g1
         cases v with
-        | none => simp [PCtx.K] at hv
+        | none => rw [hrvm] at hv; cases hv
         | some v =>
           obtain ⟨v', hv', hh⟩ := hg1
           cases hv'
@@ -207,9 +210,9 @@ theorem main_graph_of {version : Nat} {p : Prog} {Pg : PProg} (cx : Ctx)
   · simp only [hret] at hshape
     cases hshape with
     | ret hb he =>
-      have hb' : Blk (X0 Pg).G _ [.ret] (.next 0) := hb
-      have key : ∀ n, wtR (PCtx.K ⟨cx, p, Pg, version⟩ true) false true n p.main = true → n ≤ 1 →
-          FinalP cx Pg w0 r w' := by
+      have hb' : Blk (X0 P).G _ [.ret] (.next 0) := hb
+      have key : ∀ n, wtR (mainK P.fp P.p P.dyn) false true n P.p.main = true → n ≤ 1 →
+          FinalP P.dev P.ign P.cx P.Pg w0 r w' := by
         intro n hw hn
         have g1 := all.ev _ _ _ _ _ _ _ [] [] [] _ _ _ he hw hev
         cases r with
@@ -219,14 +222,14 @@ theorem main_graph_of {version : Nat} {p : Prog} {Pg : PProg} (cx : Ctx)
           match vs, n, hlen, hn with
           | [], _, _, _ =>
             refine failsP_of_fails rfl (hr.fails (Fails.of_block hb' (by simp [isSimple]) (fun wm _ => ⟨.underflow, rfl⟩)))
-          | [v], _, _, _ => exact outVP_of_haltO rfl (hr.haltO (ret_block (env := ⟨cx, p, none⟩) hb'))
+          | [v], _, _, _ => exact outVP_of_haltO rfl (hr.haltO (ret_block (env := ⟨P.cx, P.p, none⟩) hb'))
           | _ :: _ :: _, n, hlen, hn => simp only [List.length_cons] at hlen; omega
         | brk => obtain ⟨_, l, hl, _⟩ := g1; cases hl
         | cont => obtain ⟨_, l, hl, _⟩ := g1; cases hl
         | ret v =>
           obtain ⟨_, hv, hg1⟩ := g1
           cases v with
-          | none => simp [PCtx.K] at hv
+          | none => rw [hrvm] at hv; cases hv
           | some v =>
             obtain ⟨v', hv', hh⟩ := hg1
             cases hv'
@@ -237,27 +240,19 @@ theorem main_graph_of {version : Nat} {p : Prog} {Pg : PProg} (cx : Ctx)
       · exact key 0 hw (by omega)
       · exact key 1 hw (by omega)
 
-theorem main_graph {version : Nat} {p : Prog} {Pg : PProg} (cx : Ctx)
-    (hg : genProg version false p = .ok Pg) (hf : inFragmentR p = true)
-    (w0 : World) (fuel : Nat) {r : Res} {w' : World}
-    (hev : eval ⟨cx, p, none⟩ fuel p.main w0 = (r, w')) : FinalP cx Pg w0 r w' := by
-  have hwm : mainOk p = true := by
-    simp only [inFragmentR, Bool.and_eq_true] at hf
-    exact hf.1.1
-  exact main_graph_of cx (progOK_of_gen cx hg hf) (callPresent_of_gen cx hg) (genProg_main hg) hwm w0 fuel hev
-
 /-- from the result of the main tree to the outcome of `Src.runProg` -/
-theorem runProg_of_final {cx : Ctx} {p : Prog} {Pg : PProg} {w0 : World} {fuel : Nat} {r : Res} {w' : World}
-    (hev : eval ⟨cx, p, none⟩ fuel p.main w0 = (r, w')) (key : FinalP cx Pg w0 r w') :
+theorem runProg_of_final {D : Fail → Prop} {I : List Nat} {cx : Ctx} {p : Prog} {Pg : PProg} {w0 : World}
+    {fuel : Nat} {r : Res} {w' : World}
+    (hev : eval ⟨cx, p, none⟩ fuel p.main w0 = (r, w')) (key : FinalP D I cx Pg w0 r w') :
     match Src.runProg cx p fuel w0 with
-    | .done v w => ∃ n, (∃ w'', SameW w w'' ∧ runP cx Pg n { world := w0 } = .done v w'')
-                    ∨ runP cx Pg n { world := w0 } = .fail (.logic "stack overflow")
+    | .done v w => ∃ n, (∃ w'', SameW I w w'' ∧ runP cx Pg n { world := w0 } = .done v w'')
+                    ∨ ∃ f, D f ∧ runP cx Pg n { world := w0 } = .fail f
     | .fail (.unmodelled _) => True
     | .fail _ => ∃ n f, runP cx Pg n { world := w0 } = .fail f
     | .outOfFuel => True := by
-  have hdone : ∀ (x : Nat) (w : World), OutP cx Pg w0 (.done (.u x) w) →
-      ∃ n, (∃ w'', SameW w w'' ∧ runP cx Pg n { world := w0 } = .done (.u x) w'')
-        ∨ runP cx Pg n { world := w0 } = .fail (.logic "stack overflow") := by
+  have hdone : ∀ (x : Nat) (w : World), OutP D I cx Pg w0 (.done (.u x) w) →
+      ∃ n, (∃ w'', SameW I w w'' ∧ runP cx Pg n { world := w0 } = .done (.u x) w'')
+        ∨ ∃ f, D f ∧ runP cx Pg n { world := w0 } = .fail f := by
     intro x w ⟨n, h⟩
     refine ⟨n, h.imp (fun ⟨o', ho, hn⟩ => ?_) id⟩
     cases o' with
@@ -302,31 +297,137 @@ theorem runProg_of_final {cx : Ctx} {p : Prog} {Pg : PProg} {w0 : World} {fuel :
       · cases hm
       · exact key
 
+/-- the general statement, for a program context `P` built from a successful `genProg` -/
+theorem genProg_correct_of (P : PCtx) (hP : ProgOK P) (hC : CallPresent P) (hI : CallInv P)
+    (hmain : P.Pg.main[0]? = some ({} : Block) ∧
+      ShapeR P.Pg.main { version := P.version, inSub := false, callees := calleesOf P.p, markIndex := false }
+        (if hasReturn P.p.main then P.p.main else .ret (some P.p.main)) P.Pg.start 0 none)
+    (hwm : mainOkC P.fp P.p P.dyn = true) (w0 : World) (fuel : Nat) :
+    match Src.runProg P.cx P.p fuel w0 with
+    | .done v w => ∃ n, (∃ w'', SameW P.ign w w'' ∧ runP P.cx P.Pg n { world := w0 } = .done v w'')
+                    ∨ ∃ f, P.dev f ∧ runP P.cx P.Pg n { world := w0 } = .fail f
+    | .fail (.unmodelled _) => True
+    | .fail _ => ∃ n f, runP P.cx P.Pg n { world := w0 } = .fail f
+    | .outOfFuel => True := by
+  rcases hev : eval ⟨P.cx, P.p, none⟩ fuel P.p.main w0 with ⟨r, w'⟩
+  exact runProg_of_final hev (main_graph_of P hP hC hI hmain hwm w0 fuel hev)
+
+/-- only the stack limit is a permitted deviation when no run-time addressed slots are used -/
+theorem only_ovf {α : Prop} {cx : Ctx} {Pg : PProg} {n : Nat} {w0 : World}
+    (h : α ∨ ∃ f, devOvf f ∧ runP cx Pg n { world := w0 } = .fail f) :
+    α ∨ runP cx Pg n { world := w0 } = .fail (.logic "stack overflow") :=
+  h.imp id (fun ⟨f, hf, hr⟩ => by rw [hr, hf]; rfl)
+
 /-- **Correctness of code generation for programs with subroutine calls (stages 1 and 2).**
 
     For every program of the fragment `inFragmentR` (main routine and subroutine bodies arity-typed
     as in `Models.Fragment`, calls with the declared arity in operand or statement position,
-    `Return` in statement position, by-value parameters in pairwise distinct scratch slots;
-    recursion — direct or mutual — allowed), every version, under the scratch-slot calling convention
-    (`fp = false`): whenever the whole-program generator succeeds, every terminating source run is
-    matched by the multi-routine graph machine — same verdict, same return value, final world equal
-    up to the representation of the scratch space (`SameW`); the only permitted deviation is the
-    AVM's 1000-deep operand-stack limit (the machine has no call-depth limit).  When the source run
-    fails (other than `unmodelled`), the machine fails.
-
-    NOT covered (stages 3 and 4 of the plan): by-reference parameters, the frame-pointer
-    convention (`fp = true`: `proto`, `frame_dig`, `frame_bury`), `WideRatio`. -/
+    `Return` in statement position, parameters in pairwise distinct scratch slots; recursion — direct
+    or mutual — allowed), every version, under the scratch-slot calling convention (`fp = false`):
+    whenever the whole-program generator succeeds, every terminating source run is matched by the
+    multi-routine graph machine — same verdict, same return value, final world equal up to the
+    representation of the scratch space (`SameW []`); the only permitted deviation is the AVM's
+    1000-deep operand-stack limit (the machine has no call-depth limit).  When the source run fails
+    (other than `unmodelled`), the machine fails. -/
 theorem genProg_correct (version : Nat) (p : Prog) (hf : inFragmentR p = true)
     (Pg : PProg) (hg : genProg version false p = .ok Pg)
     (cx : Ctx) (w0 : World) (fuel : Nat) :
     match Src.runProg cx p fuel w0 with
-    | .done v w => ∃ n, (∃ w', SameW w w' ∧ runP cx Pg n { world := w0 } = .done v w')
+    | .done v w => ∃ n, (∃ w', SameW [] w w' ∧ runP cx Pg n { world := w0 } = .done v w')
                     ∨ runP cx Pg n { world := w0 } = .fail (.logic "stack overflow")
     | .fail (.unmodelled _) => True
     | .fail _ => ∃ n f, runP cx Pg n { world := w0 } = .fail f
     | .outOfFuel => True := by
-  rcases hev : eval ⟨cx, p, none⟩ fuel p.main w0 with ⟨r, w'⟩
-  exact runProg_of_final hev (main_graph cx hg hf w0 fuel hev)
+  have hwm : mainOkC false p false = true := by
+    simp only [inFragmentR, inFragmentC, Bool.and_eq_true] at hf
+    exact hf.1.1.1
+  have key := genProg_correct_of ⟨cx, p, Pg, version, false, false⟩ (progOK_of_gen cx hg hf)
+    (callPresent_of_gen cx hg) (callInv_scratch rfl) (genProg_main hg) hwm w0 fuel
+  revert key
+  cases Src.runProg cx p fuel w0 with
+  | done v w => intro ⟨n, h⟩; exact ⟨n, only_ovf h⟩
+  | fail f => cases f <;> (intro key; exact key)
+  | outOfFuel => intro _; trivial
+
+/-- **Run-time addressed slots (`vloads` / `vstores`, the access path of by-reference parameters;
+    stage 3), scratch-slot convention — PARTIAL.**
+
+    As `genProg_correct`, for the fragment `inFragmentC false p true`: parameters of either kind
+    (under the scratch-slot convention a by-reference parameter is a scratch cell that holds a slot
+    number), `vloads` / `vstores` with arbitrary operands.  The source semantics `vloads/vstores`
+    accepts every slot number (automatically numbered variables are abstract cells ≥ 256); the
+    generated `loads` / `stores` fails for slot numbers ≥ 256.
+
+    WHAT IS MISSING for the full statement: that this range failure cannot happen.  It needs the
+    invariant "every value that reaches `vloads` / `vstores` is a slot number < 256" (true for
+    PyTeal programs, where such values are `ScratchVar.index()` constants passed down by-reference
+    parameter chains, after slot assignment); here the failure is a permitted deviation instead. -/
+theorem genProg_correct_dyn_partial (version : Nat) (p : Prog) (hf : inFragmentC false p true = true)
+    (Pg : PProg) (hg : genProg version false p = .ok Pg)
+    (cx : Ctx) (w0 : World) (fuel : Nat) :
+    match Src.runProg cx p fuel w0 with
+    | .done v w => ∃ n, (∃ w', SameW [] w w' ∧ runP cx Pg n { world := w0 } = .done v w')
+                    ∨ runP cx Pg n { world := w0 } = .fail (.logic "stack overflow")
+                    ∨ runP cx Pg n { world := w0 } = .fail (.logic "loads slot out of range")
+                    ∨ runP cx Pg n { world := w0 } = .fail (.logic "stores slot out of range")
+    | .fail (.unmodelled _) => True
+    | .fail _ => ∃ n f, runP cx Pg n { world := w0 } = .fail f
+    | .outOfFuel => True := by
+  have hwm : mainOkC false p true = true := by
+    simp only [inFragmentC, Bool.and_eq_true] at hf
+    exact hf.1.1.1
+  have key := genProg_correct_of ⟨cx, p, Pg, version, false, true⟩ (progOK_of_gen cx hg hf)
+    (callPresent_of_gen cx hg) (callInv_scratch rfl) (genProg_main hg) hwm w0 fuel
+  revert key
+  cases Src.runProg cx p fuel w0 with
+  | done v w =>
+    intro ⟨n, h⟩
+    refine ⟨n, h.imp id (fun ⟨f, hf', hr⟩ => ?_)⟩
+    rcases hf' with rfl | rfl | rfl
+    · exact .inl hr
+    · exact .inr (.inl hr)
+    · exact .inr (.inr hr)
+  | fail f => cases f <;> (intro key; exact key)
+  | outOfFuel => intro _; trivial
+
+/-- **Correctness of code generation under the frame-pointer convention (stage 4).**
+
+    For every program of the fragment `inFragmentC true` — as `inFragmentR`, and additionally: the
+    parameter slots of all routines are pairwise distinct and are written by no tree and read only
+    by their own routine (by-value parameters are read-only expressions in PyTeal), the run-time
+    addressed `loads` / `stores` do not occur, parameters are by value and among the routine's
+    `locals`, and every call goes to a callee that is declared re-entrant or cannot reach the caller
+    (`okCallsOf`; true when `reenters` is what `findRecursionPoints` computes) — every version:
+    whenever `genProg version true p` succeeds (`proto`, `frame_dig`, `retsub` with clean-up; spill
+    code for the non-parameter locals), every terminating source run is matched by the
+    multi-routine graph machine — same verdict, same return value, final world equal up to the
+    representation of the scratch space and **up to the parameter slots** (`SameW (allParamSlots p)`:
+    the source semantics keeps by-value parameters in scratch cells, the generated code keeps
+    them in the stack frame and never writes those slots); the only permitted deviation is the
+    operand-stack limit.  When the source run fails (other than `unmodelled`), the machine fails. -/
+theorem genProg_correct_fp (version : Nat) (p : Prog) (hf : inFragmentC true p = true)
+    (Pg : PProg) (hg : genProg version true p = .ok Pg)
+    (cx : Ctx) (w0 : World) (fuel : Nat) :
+    match Src.runProg cx p fuel w0 with
+    | .done v w => ∃ n, (∃ w', SameW (allParamSlots p) w w' ∧ runP cx Pg n { world := w0 } = .done v w')
+                    ∨ runP cx Pg n { world := w0 } = .fail (.logic "stack overflow")
+    | .fail (.unmodelled _) => True
+    | .fail _ => ∃ n f, runP cx Pg n { world := w0 } = .fail f
+    | .outOfFuel => True := by
+  have hwm : mainOkC true p false = true := by
+    simp only [inFragmentC, Bool.and_eq_true] at hf
+    exact hf.1.1.1
+  have key := genProg_correct_of ⟨cx, p, Pg, version, true, false⟩ (progOK_of_gen cx hg hf)
+    (callPresent_of_gen cx hg)
+    (callInv_fp (P := ⟨cx, p, Pg, version, true, false⟩) rfl rfl hf (fun f sd hsd => by
+      obtain ⟨r, _, hl⟩ := genSubs_lookup p.subs Pg.subs (genProg_subs hg) f sd hsd
+      simp only [Present, hl, Option.isSome_some]))
+    (genProg_main hg) hwm w0 fuel
+  revert key
+  cases Src.runProg cx p fuel w0 with
+  | done v w => intro ⟨n, h⟩; exact ⟨n, only_ovf h⟩
+  | fail f => cases f <;> (intro key; exact key)
+  | outOfFuel => intro _; trivial
 
 /-- stage 1 as a special case: no routine is declared re-entrant (with `reentersOk`: the call
     graph is acyclic), so no call block contains spill code -/
@@ -334,7 +435,7 @@ theorem genProg_correct_stage1 (version : Nat) (p : Prog) (hf : inFragmentR p = 
     (_hnr : noReentry p = true) (Pg : PProg) (hg : genProg version false p = .ok Pg)
     (cx : Ctx) (w0 : World) (fuel : Nat) :
     match Src.runProg cx p fuel w0 with
-    | .done v w => ∃ n, (∃ w', SameW w w' ∧ runP cx Pg n { world := w0 } = .done v w')
+    | .done v w => ∃ n, (∃ w', SameW [] w w' ∧ runP cx Pg n { world := w0 } = .done v w')
                     ∨ runP cx Pg n { world := w0 } = .fail (.logic "stack overflow")
     | .fail (.unmodelled _) => True
     | .fail _ => ∃ n f, runP cx Pg n { world := w0 } = .fail f
@@ -365,7 +466,7 @@ example : ∃ Pg, genProg 8 false exProg = .ok Pg := ⟨_, rfl⟩
 example : ∃ w, Src.runProg {} exProg 20 = .done (.u 8) w := ⟨_, rfl⟩
 example : ∃ Pg w, genProg 8 false exProg = .ok Pg ∧ runP {} Pg 100 {} = .done (.u 8) w := ⟨_, _, rfl, rfl⟩
 example (Pg : PProg) (hg : genProg 8 false exProg = .ok Pg) :
-    ∃ n, (∃ w', SameW { scratch := [(2, .u 3), (1, .u 10)] } w' ∧ runP {} Pg n {} = .done (.u 8) w')
+    ∃ n, (∃ w', SameW [] { scratch := [(2, .u 3), (1, .u 10)] } w' ∧ runP {} Pg n {} = .done (.u 8) w')
       ∨ runP {} Pg n {} = .fail (.logic "stack overflow") :=
   genProg_correct 8 exProg (by decide) Pg hg {} {} 20
 
@@ -379,7 +480,7 @@ set_option maxRecDepth 100000 in
 /-- version 4: the `dig` flavour of the spill code -/
 example : ∃ Pg w, genProg 4 false factProg = .ok Pg ∧ runP {} Pg 1000 {} = .done (.u 120) w := ⟨_, _, rfl, rfl⟩
 example (Pg : PProg) (hg : genProg 8 false factProg = .ok Pg) :
-    ∃ n, (∃ w', SameW { scratch := [(2, .u 5), (1, .u 5)] } w' ∧ runP {} Pg n {} = .done (.u 120) w')
+    ∃ n, (∃ w', SameW [] { scratch := [(2, .u 5), (1, .u 5)] } w' ∧ runP {} Pg n {} = .done (.u 120) w')
       ∨ runP {} Pg n {} = .fail (.logic "stack overflow") :=
   genProg_correct 8 factProg (by decide) Pg hg {} {} 60
 
@@ -412,5 +513,52 @@ theorem ret_in_operand_counterexample :
     ∃ Pg f, inFragmentR retOperandProg = false ∧ genProg 8 false retOperandProg = .ok Pg ∧
       Src.runProg {} retOperandProg 20 = .done (.u 4) {} ∧ runP {} Pg 100 {} = .fail f :=
   ⟨_, _, by decide, rfl, rfl, rfl⟩
+
+/-! ### Frame-pointer convention: non-vacuity and why the statement has this shape -/
+
+/-- `g(a) = a + 1`; `f(n) = g(n) * n` (the parameter `n` is read after a call of a routine that
+    cannot reach `f`); main `f(6)` -/
+def twoProg : Prog :=
+  { subs := [{ id := 0, name := "f", params := [(.val, 1)], hasRet := true,
+               body := .prim "*" [] [.call 1 [.load 1], .load 1], locals := [1], reenters := [] },
+             { id := 1, name := "g", params := [(.val, 2)], hasRet := true,
+               body := .prim "+" [] [.load 2, .int 1], locals := [2], reenters := [] }],
+    main := .call 0 [.int 6] }
+
+example : inFragmentC true twoProg = true := by decide
+example : inFragmentC true factProg = true := by decide
+example : inFragmentC true exProg = true := by decide
+example : ∃ Pg w, genProg 8 true factProg = .ok Pg ∧ runP {} Pg 1000 {} = .done (.u 120) w := ⟨_, _, rfl, rfl⟩
+example (Pg : PProg) (hg : genProg 8 true twoProg = .ok Pg) :
+    ∃ n, (∃ w', SameW (allParamSlots twoProg) { scratch := [(2, .u 6), (1, .u 6)] } w' ∧
+            runP {} Pg n {} = .done (.u 42) w')
+      ∨ runP {} Pg n {} = .fail (.logic "stack overflow") :=
+  genProg_correct_fp 8 twoProg (by decide) Pg hg {} {} 30
+
+/-- under the frame-pointer convention the final worlds differ on the parameter slots: the source
+    semantics leaves the last arguments in the parameter cells, the generated code never writes
+    them (here: not at all) -/
+theorem fp_param_slots_counterexample :
+    ∃ Pg w w', genProg 8 true twoProg = .ok Pg ∧
+      Src.runProg {} twoProg 30 = .done (.u 42) w ∧ runP {} Pg 1000 {} = .done (.u 42) w' ∧
+      w.scratch = [(2, .u 6), (1, .u 6)] ∧ w'.scratch = [] :=
+  ⟨_, _, _, rfl, rfl, rfl, rfl, rfl⟩
+
+/-- `s(n) = if n == 0 then return 0; s(n - 1) + n` with a WRONG `reenters` field (empty, although
+    `s` calls itself): the source semantics does not restore the parameter cell after the inner
+    call and adds `0 + 0 + 0`; the generated code reads the frame and adds `1 + 2 + 3`.  This is
+    why calls must go to callees that are declared re-entrant or cannot reach the caller
+    (`okCallsOf`); the program is outside `inFragmentC true`. -/
+def wrongReentersProg : Prog :=
+  { subs := [{ id := 0, name := "s", params := [(.val, 1)], hasRet := true,
+               body := .seq [.ite (.prim "==" [] [.load 1, .int 0]) (.ret (some (.int 0))) none,
+                             .prim "+" [] [.call 0 [.prim "-" [] [.load 1, .int 1]], .load 1]],
+               locals := [1], reenters := [] }],
+    main := .call 0 [.int 3] }
+
+theorem fp_reenters_counterexample :
+    ∃ Pg w w', inFragmentC true wrongReentersProg = false ∧ genProg 8 true wrongReentersProg = .ok Pg ∧
+      Src.runProg {} wrongReentersProg 60 = .done (.u 0) w ∧ runP {} Pg 1000 {} = .done (.u 6) w' :=
+  ⟨_, _, _, by decide, rfl, rfl, rfl⟩
 
 end PyTealV.Proofs.C02Gen
